@@ -4,7 +4,10 @@ package limit
 
 // C03 driver, period limiter: PeriodLimit objects with one (period, quota) on a world's store
 // (see zz_verif_limit_test.go); the period only passes by FastForward.  Recorded per Take:
-// key, the code and whether an error was returned.
+// key, the code, whether an error was returned, and the local wall-clock second read just before
+// and just after the call (s0, s1, relative to a per-trace base that is a multiple of the period):
+// an Align() limiter cuts the period by the wall clock (time.Now(), no hook) at one of those
+// seconds, and the specification computes the counter's life from them.
 
 import (
 	"context"
@@ -14,6 +17,8 @@ import (
 	"sync/atomic"
 	"testing"
 	"time"
+
+	"github.com/zeromicro/go-zero/core/logx"
 )
 
 type perOp struct {
@@ -35,27 +40,47 @@ type perTrace struct {
 	prefix string
 	keys   int
 	period int
+	align  bool
+	base   int64   // local wall-clock second subtracted from the logged seconds (a multiple of period)
 	opened []int64 // driver's own note: clock at which it first asked for the key after it saw it gone
+	ends   []int64 // driver's own note: clock at which that period ends (aligned: by its own wall-clock read)
 }
 
 var perCallSeq int64
 
 func perBegin(w *limWorld, period, quota int, align bool, objects, keys int) *perTrace {
-	pt := &perTrace{w: w, prefix: limFreshKey("verif-per") + ":", keys: keys, period: period,
-		opened: make([]int64, keys)}
+	prefix := limFreshKey("verif-per") + ":"
+	return perBeginWith(w, perBuild(w, period, quota, align, objects, prefix), prefix, period, quota, align, keys)
+}
+
+// perBuild constructs the limiter objects of a trace (for Align() traces possibly long before the
+// trace runs: an object may be of any age and born anywhere in an aligned period).
+func perBuild(w *limWorld, period, quota int, align bool, objects int, prefix string) []*PeriodLimit {
+	var lims []*PeriodLimit
 	for o := 0; o < objects; o++ {
 		if align {
-			pt.lims = append(pt.lims, NewPeriodLimit(period, quota, w.r, pt.prefix, Align()))
+			lims = append(lims, NewPeriodLimit(period, quota, w.r, prefix, Align()))
 		} else {
-			pt.lims = append(pt.lims, NewPeriodLimit(period, quota, w.r, pt.prefix))
+			lims = append(lims, NewPeriodLimit(period, quota, w.r, prefix))
 		}
 	}
+	return lims
+}
+
+func perBeginWith(w *limWorld, lims []*PeriodLimit, prefix string, period, quota int, align bool, keys int) *perTrace {
+	pt := &perTrace{w: w, prefix: prefix, keys: keys, period: period, align: align, lims: lims,
+		opened: make([]int64, keys), ends: make([]int64, keys)}
+	sec := limLocalSec()
+	pt.base = sec - sec%int64(period)
 	for k := range pt.opened {
 		pt.opened[k] = -1
 	}
 	w.emit(verifEv{"e": "reset", "period": period, "quota": quota, "align": align, "keys": keys})
 	return pt
 }
+
+// sec is the local wall-clock second, relative to the trace's base
+func (pt *perTrace) sec() int { return int(limLocalSec() - pt.base) }
 
 func perKey(k int) string { return "k" + string(rune('0'+k)) }
 
@@ -66,11 +91,16 @@ func (pt *perTrace) take(o, k int, cancelled bool) {
 		cancel()
 		ctx = c
 	}
+	s0 := pt.sec()
 	if pt.opened[k] < 0 || !pt.w.m.Exists(pt.prefix+perKey(k)) {
 		pt.opened[k] = pt.w.clk
+		pt.ends[k] = pt.w.clk + int64(pt.period)*1000
+		if pt.align {
+			pt.ends[k] = pt.w.clk + int64(pt.period-s0%pt.period)*1000
+		}
 	}
 	code, err := pt.lims[o%len(pt.lims)].TakeCtx(ctx, perKey(k))
-	pt.w.emit(verifEv{"e": "take", "k": k, "code": code, "err": err != nil, "cx": cancelled})
+	pt.w.emit(verifEv{"e": "take", "k": k, "code": code, "err": err != nil, "cx": cancelled, "s0": s0, "s1": pt.sec()})
 }
 
 // remaining life of key k's counter in the store (0: none): only used to aim clock advances
@@ -87,7 +117,7 @@ func (pt *perTrace) ttlMs(k int) int {
 func (pt *perTrace) aim(rnd interface{ Intn(int) int }, k int) int {
 	rem := pt.ttlMs(k)
 	if rnd.Intn(3) == 0 && pt.opened[k] >= 0 {
-		rem = int(pt.opened[k] + int64(pt.period)*1000 - pt.w.clk)
+		rem = int(pt.ends[k] - pt.w.clk)
 	}
 	switch x := rnd.Intn(10); {
 	case x < 2 && rem > 1:
@@ -152,7 +182,7 @@ func TestVerifPeriodReplay(t *testing.T) {
 		if probe && !w.broken {
 			k := job % keys
 			if pt.opened[k] >= 0 {
-				if rem := int(pt.opened[k] + int64(pt.period)*1000 - w.clk); rem > 1 {
+				if rem := int(pt.ends[k] - w.clk); rem > 1 {
 					w.advance(rem - 1)
 					pt.take(0, k, false)
 					w.advance(1)
@@ -243,7 +273,7 @@ func TestVerifPeriodConcurrent(t *testing.T) {
 		rnd := verifRand(9000 + 31*int64(runtime.GOMAXPROCS(0)) + int64(job))
 		period, quota := 1+rnd.Intn(4), 1+rnd.Intn(6)
 		keys := 1 + rnd.Intn(2)
-		pt := perBegin(w, period, quota, false, 1+rnd.Intn(3), keys)
+		pt := perBegin(w, period, quota, rnd.Intn(5) == 0, 1+rnd.Intn(3), keys)
 		faulty := rnd.Intn(3) == 0
 		for rd := 0; rd < rounds && !w.broken; rd++ {
 			k := 2 + rnd.Intn(7)
@@ -263,9 +293,9 @@ func TestVerifPeriodConcurrent(t *testing.T) {
 						runtime.Gosched()
 					}
 					id := int(atomic.AddInt64(&perCallSeq, 1))
-					w.emit(verifEv{"e": "callStart", "c": id, "k": key, "d": 0})
+					w.emit(verifEv{"e": "callStart", "c": id, "k": key, "d": 0, "s0": pt.sec()})
 					code, err := pt.lims[o%len(pt.lims)].Take(perKey(key))
-					w.emit(verifEv{"e": "callEnd", "c": id, "code": code, "err": err != nil})
+					w.emit(verifEv{"e": "callEnd", "c": id, "code": code, "err": err != nil, "s1": pt.sec()})
 				}(rnd.Intn(3), rnd.Intn(keys), rnd.Intn(4))
 			}
 			close(start)
@@ -277,10 +307,10 @@ func TestVerifPeriodConcurrent(t *testing.T) {
 					runtime.Gosched()
 				}
 				id := int(atomic.AddInt64(&perCallSeq, 1))
-				w.emit(verifEv{"e": "callStart", "c": id, "k": -1, "d": adv})
+				w.emit(verifEv{"e": "callStart", "c": id, "k": -1, "d": adv, "s0": 0})
 				w.m.FastForward(time.Duration(adv) * time.Millisecond)
 				w.clk += int64(adv)
-				w.emit(verifEv{"e": "callEnd", "c": id, "code": 0, "err": false})
+				w.emit(verifEv{"e": "callEnd", "c": id, "code": 0, "err": false, "s1": 0})
 			}
 			wg.Wait()
 			if w.mode == "down" {
@@ -296,4 +326,140 @@ func TestVerifPeriodConcurrent(t *testing.T) {
 		}
 		pt.end()
 	})
+}
+
+// TestVerifPeriodAligned: Align() limiters - the period is the aligned one of the local wall clock,
+// which core/limit reads with time.Now() (no hook), so real time takes part:
+//   - the limiter objects of the "aged" traces are built first, then the driver lets the wall clock
+//     move on (a little over a second, so that it shows another second of the aligned period than at
+//     their birth) before it uses them; the other traces build theirs on the spot;
+//   - flavour "virtual": the store's clock moves by FastForward only, aimed at the end of the period
+//     as the store's ttl has it and as the driver's own wall-clock read has it (just before, at, just
+//     after), the quota is exhausted again and again over several periods;
+//   - flavour "wall" (thorough): the store's clock follows real time (FastForward by the real time
+//     elapsed since the last step) over three to four aligned periods of 2..3 s, Takes every
+//     100..300 ms.
+// Every Take logs the wall-clock second before and after the call; nothing is judged here.
+func TestVerifPeriodAligned(t *testing.T) {
+	em := verifOpen(t)
+	defer em.Close()
+	defer limInstallClock()()
+	logx.Disable()
+	virt, wall := 24, 0
+	if verifThorough() {
+		virt, wall = 160, 12
+	}
+	virt = verifEnvInt("VERIF_ALIGN_TRACES", virt)
+	wall = verifEnvInt("VERIF_ALIGN_WALL", wall)
+	type job struct {
+		period, quota, keys, objects int
+		wall                         bool
+		prefix                       string
+		lims                         []*PeriodLimit // built ahead (aged) or nil
+	}
+	par := 8
+	if verifThorough() {
+		par = 16
+	}
+	if par > virt+wall {
+		par = virt + wall
+	}
+	worlds := make([]*limWorld, par)
+	for p := range worlds {
+		if worlds[p] = newLimWorld(t); worlds[p] == nil {
+			t.Fatal("cannot start a miniredis store")
+		}
+	}
+	defer func() {
+		for _, w := range worlds {
+			w.close()
+		}
+	}()
+	jobs := make([]job, virt+wall)
+	born := limLocalSec()
+	for j := range jobs {
+		rnd := verifRand(13000 + int64(j))
+		jb := job{period: 2 + rnd.Intn(5), quota: 1 + rnd.Intn(3), keys: 1 + rnd.Intn(2), objects: 1 + rnd.Intn(2),
+			prefix: limFreshKey("verif-al") + ":"}
+		if j >= virt {
+			jb.wall, jb.period, jb.keys = true, 2+rnd.Intn(2), 1
+		}
+		if j%4 != 3 { // three of four traces use objects built now, i.e. before the wall clock moves on
+			jb.lims = perBuild(worlds[j%par], jb.period, jb.quota, true, jb.objects, jb.prefix)
+		}
+		jobs[j] = jb
+	}
+	// let the wall clock leave the second (of the aligned period) the objects were born in
+	for start := time.Now(); limLocalSec() == born || time.Since(start) < 1100*time.Millisecond; {
+		time.Sleep(20 * time.Millisecond)
+	}
+	var wg sync.WaitGroup
+	for p := range worlds {
+		wg.Add(1)
+		go func(p int) {
+			defer wg.Done()
+			w := worlds[p]
+			for j := p; j < len(jobs); j += par {
+				jb := jobs[j]
+				rnd := verifRand(13500 + int64(j))
+				w.evs = w.evs[:0]
+				w.clk = 0
+				lims := jb.lims
+				if lims == nil {
+					lims = perBuild(w, jb.period, jb.quota, true, jb.objects, jb.prefix)
+				}
+				pt := perBeginWith(w, lims, jb.prefix, jb.period, jb.quota, true, jb.keys)
+				if jb.wall {
+					perWallTrace(pt, rnd, jb.quota)
+				} else {
+					perVirtualTrace(pt, rnd, jb.quota)
+				}
+				limFlush(em, w.evs)
+			}
+		}(p)
+	}
+	wg.Wait()
+	limCheckStall(t)
+}
+
+// several periods of one key (and a second key now and then): exhaust the quota, go to the end of
+// the period, ask on both sides of it
+func perVirtualTrace(pt *perTrace, rnd interface{ Intn(int) int }, quota int) {
+	w := pt.w
+	for round := 0; round < 4; round++ {
+		k := rnd.Intn(pt.keys)
+		for r := rnd.Intn(quota + 2); r >= 0; r-- {
+			pt.take(rnd.Intn(3), k, false)
+		}
+		if rnd.Intn(3) == 0 {
+			w.advance(1 + rnd.Intn(1000))
+			pt.take(rnd.Intn(3), k, false)
+		}
+		for s := 0; s < 3; s++ {
+			w.advance(pt.aim(rnd, k))
+			pt.take(rnd.Intn(3), k, false)
+			if rnd.Intn(2) == 0 {
+				pt.take(rnd.Intn(3), rnd.Intn(pt.keys), false)
+			}
+		}
+	}
+}
+
+// the store's clock follows the wall clock
+func perWallTrace(pt *perTrace, rnd interface{ Intn(int) int }, quota int) {
+	w := pt.w
+	start := time.Now()
+	synced := start
+	total := time.Duration(pt.period)*3*time.Second + time.Duration(rnd.Intn(1500))*time.Millisecond
+	for time.Since(start) < total {
+		time.Sleep(time.Duration(100+rnd.Intn(200)) * time.Millisecond)
+		now := time.Now()
+		if d := int(now.Sub(synced) / time.Millisecond); d > 0 {
+			w.advance(d)
+			synced = synced.Add(time.Duration(d) * time.Millisecond)
+		}
+		for r := rnd.Intn(quota + 1); r >= 0; r-- {
+			pt.take(rnd.Intn(3), 0, false)
+		}
+	}
 }
